@@ -1,5 +1,5 @@
 # replay of a bounded stand-in violation (C15): re-run native/c15_hbar.py
 import sys
-print('gaussian X-Z-P: quad/sqrt(hbar) at hbar=2.0 is [0.5, -0.1], at hbar=0.5 it is [1.0, -0.2]')
+print('gaussian state (1 mode(s)) created at hbar=2.0: mean_photon answers differently after the global sf.hbar was set to another value ([(0.08631+0j), (0.14942+0j)] -> [(-0.14466+0j), (0.14942+0j)])')
 print('REPLAY-VIOLATION')
 sys.exit(1)
